@@ -3,6 +3,7 @@ import RedisVerif.Model.SimRng
 import RedisVerif.Model.SimKernel
 import RedisVerif.Model.SimHarness
 import RedisVerif.Model.SimTyped
+import RedisVerif.Model.SimMore
 
 /-
   C20 sub-driver (stateful).
@@ -191,8 +192,19 @@ def cmd (st : St) : P (St × String) := do
     let seed ← nat
     let ops ← nat
     let cfg ← restNats
-    match (SimTyped.run h seed ops cfg).orElse (fun _ => SimHarness.run h seed ops cfg) with
+    match ((SimTyped.run h seed ops cfg).orElse (fun _ => SimMore.run h seed ops cfg)).orElse (fun _ => SimHarness.run h seed ops cfg) with
     | some t => pure (st, t)
+    | none => failure
+  | "RUNL" =>
+    -- debugging aid: the predicted trace itself (families of Model/SimMore), lines joined by " ¦ "
+    let h ← tok
+    let _preset ← tok
+    let seed ← nat
+    let ops ← nat
+    let cfg ← restNats
+    match SimMore.runLines h seed ops cfg with
+    | some (.ok l) => pure (st, " ¦ ".intercalate l)
+    | some (.error e) => pure (st, e)
     | none => failure
   | _ => failure
 
